@@ -54,3 +54,6 @@ LEVEL_TEXT = ("Theorems (Props/C05): equal hashes imply equal type, topology, st
               "seqhash.Hash with the model on all cases, and the partition-by-hash = partition-by-orbit check on every DNA word to length 9 "
               "under all four flag pairs in the thorough tier.")
 LEVEL_NOTE = "Trusted: Lean kernel; harness + polymodel; BLAKE3 collision-freeness is a hypothesis; Lean BLAKE3 tested against the Go one; stated modulo C12."
+
+HARNESS_BIN = "run-seq"
+EXTRACT_BINS = ["extract-seq"]
